@@ -32,6 +32,7 @@ TEXTBOOK = {
     "rule-handle-then-terminals": 'grammar cat; @left "*"; @left <e = e e> "x" "("; start = e; e = e e | e "*" e | "x" | "(" e ")";',
     "rule-handle-between-terminals": 'grammar cat; @left "*"; @left "x" <e = e e> "("; start = e; e = e e | e "*" e | "x" | "(" e ")";',
     "two-rule-handles-then-terminal": 'grammar g; @left <e = e e> <e = e o e> "x"; @left "(" "+" "-"; start = e; e = e e | e o e | "x" | "(" e ")"; o = "+" | "-";',
+    "superset-target-all-states-kept": 'grammar g; @right "x" "y"; start = "y" "x" | "x" b "y"; a = "x" |  | start; b = start start "y" | "x" "y"; c = "y" a "y" | b c c b;',
     "binary-rule-handle": 'grammar g; @left <e = e "+" e>; start = e; e = e "+" e | "n";',
 }
 
@@ -393,6 +394,56 @@ def lr0_state_count(T):
     return len(seen)
 
 
+def superset_merged(T):
+    """The signature of known finding D25: following the table's own transitions from state 0 and computing, beside each
+    state, the LR(0) kernel the construction prescribes for it, some state is entered with two different kernels one of
+    which strictly contains the other (a GOTO / SHIFT target was replaced by a state whose item set is a superset)."""
+    prods = [(len(T.nts), [("n", T.start)])] + list(T.prods)     # production 0 = S' -> start
+
+    def closure(kernel):
+        items = set(kernel)
+        work = list(kernel)
+        while work:
+            p, d = work.pop()
+            body = prods[p][1]
+            if d < len(body) and body[d][0] == "n":
+                for q, (h, b) in enumerate(prods):
+                    if h == body[d][1] and (q, 0) not in items:
+                        items.add((q, 0))
+                        work.append((q, 0))
+        return items
+    trans = {}
+    for s_, X, n in T.transitions():
+        trans.setdefault(s_, []).append((X, n))
+    start = (0, frozenset([(0, 0)]))
+    seen = {start}
+    work = [start]
+    kernels = {0: {start[1]}}
+    while work and len(seen) < 20000:
+        st, k = work.pop()
+        cl = closure(k)
+        by = {}
+        for p, d in cl:
+            body = prods[p][1]
+            if d < len(body):
+                by.setdefault(tuple(body[d]), set()).add((p, d + 1))
+        for X, n in trans.get(st, []):
+            nk = frozenset(by.get(tuple(X), ()))
+            if not nk:
+                continue
+            kernels.setdefault(n, set()).add(nk)
+            if (n, nk) not in seen:
+                seen.add((n, nk))
+                work.append((n, nk))
+    for n, ks in kernels.items():
+        ks = list(ks)
+        for a in ks:
+            for b in ks:
+                if a != b and a < b:
+                    return True
+    return False
+
+
 def reachable_states(T):
     seen = {0}
     work = [0]
@@ -539,7 +590,7 @@ def check(tier):
         rep.obligation("instance files compile", False)
         rep.violation("instances", {"theorem": "gen/inst_C06_*.v does not compile", "log": cerr[-3000:]}, no_input=True)
     else:
-        unexplained = [i for i in bad if not (reachable_states(meta[i][3]) < lr0_state_count(meta[i][3]) and rep.match_known({"fewer-states-than-lalr"}))]
+        unexplained = [i for i in bad if not (superset_merged(meta[i][3]) and rep.match_known({"fewer-states-than-lalr"}))]
         rep.obligation("certified instances: %d of %d tables == Coq LALR(1) reference / conflicts, and safe (the rest: known finding D25)"
                        % (len(insts) - len(bad), len(insts)), not unexplained)
     # exactness certificates (Cfg/LRExact.v), for the tables that are the reference tables
@@ -577,8 +628,8 @@ def check(tier):
         tags = {"table"}
         ref_states = lr0_state_count(T)
         nstates = reachable_states(T)
-        if nstates < ref_states:
-            tags = {"fewer-states-than-lalr"}        # the dependency merged a GOTO target into a superset state
+        if superset_merged(T):
+            tags = {"fewer-states-than-lalr"}        # the dependency replaced a GOTO / SHIFT target by a superset state (D25)
         diff = None if rejected else language_difference(T, sp)
         if rep.match_known(tags) is None:
             reported += 1
